@@ -556,6 +556,15 @@ where
             ));
             return;
         }
+        // Check is expression type equal to the value type
+        if value.inner_type != expr_result.expr_type {
+            self.add_error(error::StateErrorResult::new(
+                error::StateErrorKind::WrongExpressionType,
+                bind_data.to_string(),
+                data.location(),
+            ));
+            return;
+        }
         function_state.borrow_mut().binding(value, expr_result);
     }
 
